@@ -218,5 +218,5 @@ int main(int argc, char **argv) {
     }
     return out;
   };
-  return vf::run_cases(fn);
+  return vf::run_cases(fn, true, 5);   // a case that does not finish in 5 s is an observation SIG(14)
 }
